@@ -154,7 +154,9 @@ class Vector(object):
 
     def angle(self, other):
         """Returns the angle (in radians) enclosed by both vectors."""
-        return math.acos((self * other) / (self.length() * other.length()))
+        cos_angle = (self * other) / (self.length() * other.length())
+        # rounding can push the quotient slightly outside [-1, 1]
+        return math.acos(max(-1, min(1, cos_angle)))
 
     def normalized(self):
         """Return the normalized version of the vector, that is a vector
